@@ -283,6 +283,18 @@ func negotiateCompression( // nolint:nonamedreturns
 	return requestCompression, responseCompression, nil
 }
 
+// headerList returns a header's value as HTTP defines it when the field
+// appears on more than one line: the lines' values joined into one
+// comma-separated list. (Header.Get would return the first line only, so that
+// "gzip" followed by a second line "br" would pass for plain "gzip".)
+func headerList(header http.Header, key string) string {
+	values := header[key]
+	if len(values) == 1 {
+		return values[0]
+	}
+	return strings.Join(values, ", ")
+}
+
 func flushResponseWriter(w http.ResponseWriter) {
 	if f, ok := w.(http.Flusher); ok {
 		f.Flush()
